@@ -281,6 +281,58 @@ def run(chk):
                 chk.fail("roundtrip-differs", f"a file-backed process tensor ({via}, mode '{mode_}') renamed after its creation comes back as {got_names} "
                          f"(the object said {live})", info)
 
+        # ---- a process tensor filled by hand into a write-mode file vs the same tensors in memory: both close their own caps
+        # (compute_caps), then the file is closed and imported again; caps and dynamics agree throughout ------------------------
+        for j in range(12 if thorough else 5):
+            d = 2 if j < 4 else rng.choice([1, 2])
+            N = rng.randint(2, 4)
+            tr = [True, "in", "out", False][j % 4]                 # j == 0: rank-4 tensors with (non-unitary) transforms on both legs
+            p = rand_intpt(rng, d, N, maxbond=3, transforms=tr, lo=-2, hi=2, last_trivial=True)
+            if j == 0:
+                while not any(x.ndim == 4 for x in p.mpos):
+                    p = rand_intpt(rng, d, N, maxbond=3, transforms=tr, lo=-2, hi=2, last_trivial=True)
+            fn_ = os.path.join(tmp, f"hand_{j}.hdf5")
+            info = {"kind": "hand-filled-file", "d": d, "N": N, "ranks": [x.ndim for x in p.mpos], "transforms": {True: "both", False: "none"}.get(tr, tr)}
+            chk.search_cases += 1
+            chk.count("hand_filled_file")
+            chk.case(info, ("hand", d, N, str(info["ranks"]), info["transforms"], j))
+            try:
+                mem_ = ptm.SimpleProcessTensor(d, dt=0.1, transform_in=p.tin, transform_out=p.tout)
+                fil_ = ptm.FileProcessTensor("write", fn_, d, dt=0.1, transform_in=p.tin, transform_out=p.tout)
+                for k_, m_ in enumerate(p.mpos):
+                    mem_.set_mpo_tensor(k_, m_)
+                    fil_.set_mpo_tensor(k_, m_)
+                mem_.compute_caps()
+                fil_.compute_caps()
+                d2 = d * d
+                props = [(gint(rng, (d2, d2), -1, 1), gint(rng, (d2, d2), -1, 1)) for _ in range(N)]
+                rho0 = gint(rng, (d, d), -2, 2)
+                ref_caps = [np.array(mem_.get_cap_tensor(k_)) for k_ in range(N + 1)]
+                ref_dyn = states_of(d, mem_, props, rho0, N)
+                def differs(ob_):
+                    caps_ = [ob_.get_cap_tensor(k_) for k_ in range(N + 1)]
+                    if any(c_ is None or np.array(c_).shape != r_.shape or not np.allclose(c_, r_, rtol=1e-9, atol=1e-9) for c_, r_ in zip(caps_, ref_caps)):
+                        return "cap tensors"
+                    dy_ = states_of(d, ob_, props, rho0, N)
+                    if dy_.shape != ref_dyn.shape or not np.allclose(dy_, ref_dyn, rtol=1e-9, atol=1e-9):
+                        return "dynamics"
+                    return None
+                bad = differs(fil_)
+                where = "the write-mode file object"
+                fil_.close()
+                for kind in ("file", "simple"):
+                    if bad is None:
+                        back_ = ptm.import_process_tensor(fn_, kind)
+                        bad, where = differs(back_), f"the file imported as '{kind}'"
+                        if kind == "file":
+                            back_.close()
+            except Exception as ex:
+                chk.fail("imported-raises", f"a hand-filled file-backed process tensor raises {ex!r}", info)
+                continue
+            if bad:
+                chk.fail("file-backed-caps-differ", f"hand-filled process tensor (ranks {info['ranks']}, transforms {info['transforms']}): {bad} of {where} differ from "
+                         "those of the in-memory process tensor holding the same tensors (both after compute_caps())", info)
+
         # ---- file-backed PT-TEMPO vs in-memory (same float operations) ----------
         sx_, sy_, sz_ = (oqupy.operators.sigma(a) for a in "xyz")
         for j in range(6 if thorough else 3):
